@@ -43,6 +43,12 @@ def gen_criterion(rng, rich):
         if rng.random() < 0.3:
             c["max_num_trials_started"] = rng.randint(0, 12)
         return c
+    if rng.random() < 0.15:
+        # both metric thresholds at once, so that runs occur in which only one side is crossed
+        c = dict(min_metric_value=rng.randint(1, 8) / 4.0, max_metric_value=rng.randint(32, 39) / 4.0)
+        if rng.random() < 0.3:
+            c[rng.choice(["max_num_trials_started", "max_num_trials_finished"])] = rng.randint(3, 12)
+        return c
     fields = ["max_wallclock_time", "max_num_evaluations", "max_num_trials_started", "max_num_trials_completed",
               "max_num_trials_finished", "max_cost", "min_metric_value", "max_metric_value"]
     k = rng.choice([0, 1, 1, 1, 2, 2, 3, 8])
@@ -248,6 +254,8 @@ def check_c12(params, out):
             bad.append(("loop body entered after the stop condition held (wait_trial_completion_when_stopping=False)",
                         dict(check="exit", event="loop_body")))
             break
+    # ---- the StoppingCriterion itself, re-evaluated from its documentation ---------------------------
+    bad.extend(check_stopping_criterion(params, out))
     # ---- finally block ----------------------------------------------------------------------
     if out["outcome"][0] != "aborted":
         if sum(1 for ev in tr if ev[0] == "cb_tuning_end") != 1 or sum(1 for ev in tr if ev[0] == "b_stop_all") != 1:
@@ -301,6 +309,51 @@ def check_c12(params, out):
     return bad
 
 
+def expected_criterion(crit, obs):
+    """Independent reading of the StoppingCriterion docstring (stopping_criterion.py): 'the combined criterion is
+    true whenever one of the atomic criteria is true'; max_num_* : 'more than this number ...'; max_cost : 'total
+    cost ... larger than this value'; min_metric_value / max_metric_value : 'an evaluation reports a metric value
+    below / above a threshold' (per metric). max_wallclock_time : 'once this wallclock time is reached' - equality
+    is left undecided (returns None for that field). Returns {field: True|False|None} for the fields that are set."""
+    res = {}
+    for field, key in (("max_num_evaluations", "evaluations"), ("max_num_trials_started", "started"),
+                       ("max_num_trials_completed", "completed"), ("max_num_trials_finished", "finished"),
+                       ("max_cost", "cost")):
+        if crit.get(field) is not None:
+            res[field] = obs[key] > crit[field]
+    if crit.get("max_wallclock_time") is not None:
+        w, b = obs["wallclock"], crit["max_wallclock_time"]
+        res["max_wallclock_time"] = None if w == b else w > b
+    if crit.get("min_metric_value") is not None:
+        res["min_metric_value"] = "m" in obs["min_metrics"] and obs["min_metrics"]["m"] < crit["min_metric_value"]
+    if crit.get("max_metric_value") is not None:
+        res["max_metric_value"] = "m" in obs["max_metrics"] and obs["max_metrics"]["m"] > crit["max_metric_value"]
+    return res
+
+
+def check_stopping_criterion(params, out):
+    """Compares what the real StoppingCriterion answered at every evaluation with the documented meaning of its
+    fields applied to the recorded TuningStatus observables."""
+    crit = params.get("criterion") or {}
+    obs_list = out.get("criterion_obs") or []
+    for i, obs in enumerate(obs_list):
+        exp = expected_criterion(crit, obs)
+        must = [f for f, v in exp.items() if v is True]
+        undecided = [f for f, v in exp.items() if v is None]
+        shown = {k: obs[k] for k in ("wallclock", "evaluations", "started", "completed", "finished", "cost")}
+        shown.update(min_m=obs["min_metrics"].get("m"), max_m=obs["max_metrics"].get("m"))
+        went_on = "the run went on" if i + 1 < len(obs_list) else "the run ended"
+        if must and not obs["criterion"]:
+            return [("evaluation %d: %s holds (%s; criterion %s) but the real StoppingCriterion returned False, %s" % (
+                i, must[0], shown, crit, went_on),
+                     dict(check="stopping_criterion", field=must[0]))]
+        if obs["criterion"] and not must and not undecided:
+            return [("evaluation %d: no field of the criterion %s holds (%s) but the real StoppingCriterion returned True, %s" % (
+                i, crit, shown, went_on),
+                     dict(check="stopping_criterion", field="none"))]
+    return []
+
+
 def histograms(ctx, case, out):
     p = case["params"]
     ctx.h("n_workers", p["n_workers"])
@@ -309,6 +362,9 @@ def histograms(ctx, case, out):
     ctx.h("outcome", out["outcome"][0])
     ctx.h("polls", min(out["iterations"] // 5 * 5, 60))
     ctx.h("criterion_fields", ",".join(sorted(k.replace("max_", "").replace("num_", "") for k in (p.get("criterion") or {}))) or "-")
+    for obs in (out.get("criterion_obs") or [])[-1:]:
+        fired = [f for f, v in expected_criterion(p.get("criterion") or {}, obs).items() if v]
+        ctx.h("criterion_fired_at_end", ",".join(sorted(fired)) if fired else ("extra" if obs["extra"] else "-"))
     kinds = {}
     for ev in out["trace"]:
         k = ev[0]
